@@ -55,6 +55,22 @@ fn uri_encode_string(input: &str, encode_slash: bool) -> String {
     output
 }
 
+/// pushes a trimmed header value, converting sequential spaces to a single space
+fn push_collapsing_spaces(output: &mut String, value: &str) {
+    let mut prev_space = false;
+    for c in value.chars() {
+        if c == ' ' {
+            if !prev_space {
+                output.push(c);
+            }
+            prev_space = true;
+        } else {
+            prev_space = false;
+            output.push(c);
+        }
+    }
+}
+
 /// is skipped header
 fn is_skipped_header(header: &str) -> bool {
     header == "authorization"
@@ -146,7 +162,7 @@ pub fn create_canonical_request(
             }
             ans.push_str(name);
             ans.push(':');
-            ans.push_str(value.trim());
+            push_collapsing_spaces(&mut ans, value.trim());
             ans.push('\n');
         }
         ans.push('\n');
@@ -358,7 +374,7 @@ pub fn create_presigned_canonical_request(
             }
             ans.push_str(name);
             ans.push(':');
-            ans.push_str(value.trim());
+            push_collapsing_spaces(&mut ans, value.trim());
             ans.push('\n');
         }
         ans.push('\n');
